@@ -9,7 +9,7 @@ Annotation expressions are syntax trees `AnnExpr`; the three routes evaluate the
 
 * `astEval`  — the AST / string route: `annotations.py` `type_from_ast` → `_type_from_ast` :389 →
   `_Visitor` :966 (first pass: expression → `_SubscriptedValue` tree; **no `visit_Starred`**, so a
-  starred member raises `NotImplementedError` from `generic_visit` :970) → `_type_from_value` :677 →
+  starred member is reported by `generic_visit` :984 and read as `Any[error]`) → `_type_from_value` :677 →
   `_type_from_subscripted_value` :721 (second pass).  A string constant is a `KnownValue(str)` and is
   sent through `_type_from_runtime` :405 → `_eval_forward_ref` :663, i.e. parsed and evaluated by
   the same route.
@@ -174,6 +174,28 @@ def AnnExpr.starUL : List AnnExpr → Bool
   | e :: es => e.starU || AnnExpr.starUL es
 end
 
+mutual
+/-- the number of starred members `_Visitor`'s first pass meets (outside string constants; it does not look
+into a starred member): each is reported once by `generic_visit` :984 -/
+def AnnExpr.starCount : AnnExpr → Nat
+  | .star _ => 1
+  | .gen _ _ args => AnnExpr.starCountL args
+  | .tup _ ms => AnnExpr.starCountL ms
+  | .tupV _ e => e.starCount
+  | .unpack e => e.starCount
+  | .typ _ e => e.starCount
+  | .ann e _ => e.starCount
+  | .final e => e.starCount
+  | .classVar e => e.starCount
+  | .opt e => e.starCount
+  | .union es => AnnExpr.starCountL es
+  | .bor a b => a.starCount + b.starCount
+  | _ => 0
+def AnnExpr.starCountL : List AnnExpr → Nat
+  | [] => 0
+  | e :: es => e.starCount + AnnExpr.starCountL es
+end
+
 /-! ## The AST / string route -/
 mutual
 /-- `_type_from_ast(node, ctx, allow_unpack=au)`. -/
@@ -192,8 +214,8 @@ def astEval (look : Lookup) (au : Bool) : AnnExpr → Option Res
     (astEval look false e).map fun r => ⟨.generic C.tuple [r.ty], r.errs, false⟩
   | .unpack e =>                                -- :844
     if au then (astEval look false e).map fun r => ⟨r.ty, r.errs, true⟩
-    else if e.starU then none else errAny
-  | .star _ => none                             -- `_Visitor.generic_visit` :970 raises
+    else some ⟨.any, 1 + e.starCount, false⟩     -- the second pass stops here; the first pass has reported the starred members
+  | .star _ => errAny                           -- `_Visitor.generic_visit` :984: "Unsupported syntax in annotation: Starred", Any[error]
   | .lit os => ok (unite (os.map fun o => .known o.toObj))   -- :769 all members are KnownValue
   | .typ _ e =>                                 -- :791
     (astEval look false e).map fun r => ⟨mkSub r.ty, r.errs, false⟩
